@@ -129,17 +129,18 @@ Section Term.
   Fixpoint count_err (ev : nat -> bg_event) (i n : nat) : nat :=
     match n with
     | O => 0%nat
-    | S n' => ((match ev i with EvRegionErr _ => 1 | EvOk => 0 end) + count_err ev (S i) n')%nat
+    | S n' => ((match ev i with EvRegionErr _ | EvBatchLocked _ => 1 | EvOk => 0 end) + count_err ev (S i) n')%nat
     end.
-  (* at most E region errors from step i on *)
+  (* at most E region errors / whole-batch lock answers from step i on *)
   Definition bounded_errs (ev : nat -> bg_event) (i E : nat) : Prop := forall n, (count_err ev i n <= E)%nat.
 
   Lemma bounded_ok ev i E : bounded_errs ev i E -> ev i = EvOk -> bounded_errs ev (S i) E.
   Proof. intros H He n. specialize (H (S n)). cbn [count_err] in H. rewrite He in H. exact H. Qed.
-  Lemma bounded_err ev i E L : bounded_errs ev i E -> ev i = EvRegionErr L ->
+  Lemma bounded_err ev i E : bounded_errs ev i E -> ev i <> EvOk ->
     exists E', E = S E' /\ bounded_errs ev (S i) E'.
   Proof.
-    intros H He. destruct E as [|E'].
+    intros H He0. assert (He : match ev i with EvRegionErr _ | EvBatchLocked _ => 1%nat | EvOk => 0%nat end = 1%nat) by (destruct (ev i); congruence).
+    destruct E as [|E'].
     - specialize (H 1%nat). cbn [count_err] in H. rewrite He in H. lia.
     - exists E'. split; [reflexivity|]. intros n. specialize (H (S n)). cbn [count_err] in H. rewrite He in H. lia.
   Qed.
@@ -216,7 +217,7 @@ Section Term.
     induction fuel as [|f IH]; intros Fin ev i w rs pend acc E Hinv Herr Hne HK Hf; [lia|]. cbn [bget].
     destruct pend as [|b rest]; [eauto|].
     inversion Hne as [|? ? Hb Hrest]; subst. cbn [concat length] in *. rewrite app_length in HK.
-    destruct (ev i) as [|L] eqn:Eev.
+    destruct (ev i) as [|L|kl] eqn:Eev.
     - pose proof (serve_locked w rs b) as Hsl. pose proof (serve_locked_in w rs b) as Hsi.
       destruct (serve w rs ts b) as [vals locked]. cbn [snd] in Hsl, Hsi.
       pose proof (fold_handle_inv ts Fin locked (w, rs) Hinv) as Hinv'.
@@ -256,7 +257,7 @@ Section Term.
              assert (Hstrict : (length (filter (blockedb (w', rs')) (lk ++ concat rest)) < length (filter (blockedb (w, rs)) (lk ++ concat rest)))%nat).
              { apply (count_lt _ _ _ k1); [intros x _; apply Hmono|apply in_or_app; left; left; reflexivity|exact Hg|exact Hub']. }
              lia.
-    - destruct (bounded_err _ _ _ _ Herr Eev) as (E' & -> & Herr').
+    - destruct (bounded_err _ _ _ Herr ltac:(rewrite Eev; discriminate)) as (E' & -> & Herr').
       set (gs := if one_region L b then [b] else group_keys L b).
       assert (Hgs : Forall (fun g => g <> []) gs /\ length (concat gs) = length b).
       { unfold gs. destruct (one_region L b); [|apply group_keys_props]. split; [constructor; [exact Hb|constructor]|cbn; rewrite app_nil_r; reflexivity]. }
@@ -265,5 +266,22 @@ Section Term.
       assert (HK' : (length (concat (gs ++ rest)) <= K)%nat) by (rewrite concat_app, app_length, G2; exact HK).
       eapply (IH Fin); [exact Hinv|exact Herr'|exact Hne'|exact HK'|].
       pose proof (nblocked_le (w, rs) (concat (gs ++ rest))). pose proof (concat_nonempty_len _ Hne'). cbn [Nat.mul] in Hf. nia.
+    - (* whole-batch lock answer: the batch stays, the potential does not grow, one event is used up *)
+      destruct (bounded_err _ _ _ Herr ltac:(rewrite Eev; discriminate)) as (E' & -> & Herr').
+      assert (Htx : txs_ok (w_txns w) ts) by (destruct Hinv as (H & _); exact H).
+      assert (Hst : exists st', st' = (match store_get (k_get (w_keys w) kl) ts rs with
+                             | SLocked l => handle_lock ts (w, rs) (kl, l) | SVal _ => (w, rs) end) /\
+                    inv ts Fin st' /\ (forall k', blockedb st' k' = true -> blockedb (w, rs) k' = true) /\
+                    (patience (w_txns (fst st')) <= patience (w_txns w))%nat).
+      { destruct (store_get (k_get (w_keys w) kl) ts rs) as [o|l].
+        - exists (w, rs). split; [reflexivity|]. split; [exact Hinv|]. split; [auto|cbn; lia].
+        - exists (handle_lock ts (w, rs) (kl, l)). split; [reflexivity|]. split; [apply handle_lock_inv; exact Hinv|].
+          destruct (handle_lock_effect (w, rs) kl l Htx) as (M1 & P1 & _). split; [exact M1|exact P1]. }
+      destruct Hst as (st' & <- & Hinv' & M & Pp). destruct st' as [w1 rs1]. cbn [fst snd] in *.
+      eapply (IH Fin); [exact Hinv'|exact Herr'|exact Hne|cbn [concat]; rewrite app_length; exact HK|].
+      cbn [concat length]. unfold nblocked in *.
+      assert (Hle : (length (filter (blockedb (w1, rs1)) (b ++ concat rest)) <= length (filter (blockedb (w, rs)) (b ++ concat rest)))%nat)
+        by (apply count_le; intros x _; apply M).
+      cbn [Nat.mul] in Hf. nia.
   Qed.
 End Term.
